@@ -9,20 +9,20 @@ replay, and the Verus prelude with the assumed contracts on dependencies."""
 M_RS = r'''
 use core::cmp::Ordering;
 use core::hash::{Hash, Hasher};
-pub fn eq_a(a: &u8, b: &u8) -> bool { a % 4 <= b % 4 }
-pub fn eq_b(a: &u8, b: &u8) -> bool { a / 2 == b / 2 }
-pub fn cmp_a(a: &u8, b: &u8) -> Ordering { (a % 4).cmp(&(b % 3)) }
-pub fn cmp_b(a: &u8, b: &u8) -> Ordering { (b / 2).cmp(&(a / 2)) }
-pub fn pcmp_a(a: &u8, b: &u8) -> Option<Ordering> { if *a == 255 || *b == 254 { None } else { Some((a % 4).cmp(&(b % 3))) } }
-pub fn pcmp_b(a: &u8, b: &u8) -> Option<Ordering> { Some((b / 2).cmp(&(a / 2))) }
-pub fn hash_a<H: Hasher>(a: &u8, h: &mut H) { h.write_u8(*a % 4); h.write_u8(0xA5) }
-pub fn hash_b<H: Hasher>(a: &u8, h: &mut H) { h.write_u16(*a as u16 / 2) }
+pub fn eq_a(a: &u8, b: &u8) -> bool { (a & 3) <= (b & 3) }
+pub fn eq_b(a: &u8, b: &u8) -> bool { a >> 1 == b >> 1 }
+pub fn cmp_a(a: &u8, b: &u8) -> Ordering { (a & 3).cmp(&(b >> 6)) }
+pub fn cmp_b(a: &u8, b: &u8) -> Ordering { (b >> 1).cmp(&(a >> 1)) }
+pub fn pcmp_a(a: &u8, b: &u8) -> Option<Ordering> { if *a == 255 || *b == 254 { None } else { Some((a & 3).cmp(&(b >> 6))) } }
+pub fn pcmp_b(a: &u8, b: &u8) -> Option<Ordering> { Some((b >> 1).cmp(&(a >> 1))) }
+pub fn hash_a<H: Hasher>(a: &u8, h: &mut H) { h.write_u8(*a & 3); h.write_u8(0xA5) }
+pub fn hash_b<H: Hasher>(a: &u8, h: &mut H) { h.write_u16((*a as u16) >> 1) }
 pub fn clone_a(a: &u8) -> u8 { a.wrapping_add(1) }
 pub fn clone_b(a: &u8) -> u8 { a ^ 0x55 }
 pub fn into_a(a: u8) -> u16 { a as u16 + 1000 }
-pub fn into_b(a: u8) -> u32 { a as u32 * 3 + 7 }
+pub fn into_b(a: u8) -> u32 { ((a as u32) << 2) | 1 }
 pub fn into_c(a: u16) -> u16 { a ^ 0x00ff }
-pub fn fmt_a(a: &u8, f: &mut core::fmt::Formatter<'_>) -> core::fmt::Result { f.write_str(if *a % 2 == 0 { "even" } else { "odd" }) }
+pub fn fmt_a(a: &u8, f: &mut core::fmt::Formatter<'_>) -> core::fmt::Result { f.write_str(if *a & 1 == 0 { "even" } else { "odd" }) }
 pub fn fmt_b(a: &u8, f: &mut core::fmt::Formatter<'_>) -> core::fmt::Result { f.write_str("<b>") }
 
 /// abstract key type used where Verus needs a non-generic field type with its own
@@ -184,6 +184,7 @@ use core::cmp::Ordering;
 verus! {
 pub open spec fn lex2(x: Ordering, y: Ordering) -> Ordering { if x == Ordering::Equal { y } else { x } }
 pub open spec fn plex2(x: Option<Ordering>, y: Option<Ordering>) -> Option<Ordering> { if x == Some(Ordering::Equal) { y } else { x } }
+pub open spec fn ord_rev(x: Ordering) -> Ordering { match x { Ordering::Less => Ordering::Greater, Ordering::Equal => Ordering::Equal, Ordering::Greater => Ordering::Less } }
 pub open spec fn cmp_int(a: int, b: int) -> Ordering { if a < b { Ordering::Less } else if a == b { Ordering::Equal } else { Ordering::Greater } }
 
 // ---- assumed contracts: hashing -------------------------------------------------
